@@ -634,31 +634,47 @@ def gen_tables(trees):
     out.append("Definition gen_unify_sites : list (string * list bool) :=\n  [" + ";\n   ".join(
         f'("{k}", [' + "; ".join("true" if b else "false" for b in v) + '])' for k, v in gu) + "].\n")
     out.append("Definition gen_cached_properties : list string := " + coq_str_list(gc) + ".\n")
-    cm_names, cm_red, cm_second = core_merge_dispatch(trees["core"])
-    out.append("(* core.py: func_names whose key-chunk results are merged with a fixed reducer, that reducer, and the test of the next branch *)")
-    out.append("Definition gen_core_merge_sums : list string * string * string :=\n  (" + coq_str_list(cm_names) + ', "' + cm_red + '", "' + cm_second.replace('"', "'") + '").\n')
-    out.append("(* numba.py: initial value of the accumulators per kind of operation; rolling operation -> kernel *)")
-    out.append("Definition gen_build_target_rule : list (string * string) :=\n  [" + ";\n   ".join(
-        '("' + a.replace('"', "'") + '", "' + b.replace('"', "'") + '")' for a, b in build_target_rule(trees["numba"])) + "].\n")
-    out.append("Definition gen_rolling_dispatch : list (string * string) :=\n  [" + "; ".join(
-        '("' + a + '", "' + b + '")' for a, b in rolling_dispatch(trees["numba"])) + "].\n")
-    out.append("(* emas.py: how alpha, the elapsed halflives and the decay factor are computed *)")
-    out.append("Definition gen_ema_formulas : list (string * string * string) :=\n  [" + ";\n   ".join(
-        '("' + '", "'.join(x.replace('"', "'") for x in r) + '")' for r in ema_formulas(trees["emas"])) + "].\n")
-    out.append("(* numba._rolling_sum_or_mean_1d: the statements that update the running sum and its compensation *)")
-    out.append("Definition gen_rolling_sum_updates : list string :=\n  " + coq_str_list(rolling_sum_updates(trees["numba"])).replace("; ", ";\n   ") + ".\n")
-    arm = [n for n in trees["core"].body if isinstance(n, ast.FunctionDef) and n.name == "add_row_margin"]
-    if len(arm) != 1:
-        raise Unsupported("core.add_row_margin not found exactly once")
-    out.append("(* core.add_row_margin: its statements in source order *)")
-    out.append("Definition gen_add_row_margin : list string :=\n  " + coq_str_list(flat_statements(arm[0])).replace("; ", ";\n   ") + ".\n")
-    out.append("(* util.mean_from_sum_count, nanops.nanmean / nanvar / nanstd: their statements in source order *)")
-    out.append("Definition gen_moment_formulas : list (string * list string) :=\n  [" + ";\n   ".join(
-        f'("{k}", {coq_str_list(v)})' for k, v in moment_formulas(trees)) + "].\n")
-    nd = nanops_dispatch(trees["nanops"])
-    out.append("(* nanops.reduce_1d: condition on the reducer name, skipna, initial value, reduction of the chunk results *)")
-    out.append("Definition gen_nanops_dispatch : list (string * string * string * string) :=\n  [" + ";\n   ".join(
-        '("' + '", "'.join(x.replace('"', "'") for x in r) + '")' for r in nd) + "].\n")
+    # every table below is tied by its own Proofs/Tie*.v: a construct the translator does not recognise poisons THAT table only
+    # (its tie then fails, and with it exactly the properties that rest on it) instead of stopping the whole translation
+    def poison(msg):
+        return "<translator: " + str(msg).replace('"', "'") + ">"
+
+    def table(name, typ, comment, make, poisoned):
+        out.append(f"(* {comment} *)")
+        try:
+            body = make()
+        except Unsupported as e:
+            print(f"py2coq: {name}: {e}", file=sys.stderr)
+            body = poisoned(poison(e))
+        out.append(f"Definition {name} : {typ} :=\n  {body}.\n")
+
+    def q(x):
+        return '"' + x.replace('"', "'") + '"'
+
+    def cm():
+        names, red, second = core_merge_dispatch(trees["core"])
+        return "(" + coq_str_list(names) + ", " + q(red) + ", " + q(second) + ")"
+    table("gen_core_merge_sums", "list string * string * string",
+          "core.py: func_names whose key-chunk results are merged with a fixed reducer, that reducer, and the test of the next branch", cm, lambda m: f'([], "{m}", "")')
+    table("gen_build_target_rule", "list (string * string)", "numba.py: initial value of the accumulators per kind of operation",
+          lambda: "[" + ";\n   ".join("(" + q(a_) + ", " + q(b_) + ")" for a_, b_ in build_target_rule(trees["numba"])) + "]", lambda m: f'[("{m}", "")]')
+    table("gen_rolling_dispatch", "list (string * string)", "numba.py: rolling operation -> kernel",
+          lambda: "[" + "; ".join("(" + q(a_) + ", " + q(b_) + ")" for a_, b_ in rolling_dispatch(trees["numba"])) + "]", lambda m: f'[("{m}", "")]')
+    table("gen_ema_formulas", "list (string * string * string)", "emas.py: how alpha, the elapsed halflives and the decay factor are computed",
+          lambda: "[" + ";\n   ".join("(" + ", ".join(q(x) for x in r) + ")" for r in ema_formulas(trees["emas"])) + "]", lambda m: f'[("{m}", "", "")]')
+    table("gen_rolling_sum_updates", "list string", "numba._rolling_sum_or_mean_1d: the statements that update the running sum and its compensation",
+          lambda: coq_str_list(rolling_sum_updates(trees["numba"])).replace("; ", ";\n   "), lambda m: f'["{m}"]')
+
+    def arm():
+        fns = [n for n in trees["core"].body if isinstance(n, ast.FunctionDef) and n.name == "add_row_margin"]
+        if len(fns) != 1:
+            raise Unsupported("core.add_row_margin not found exactly once")
+        return coq_str_list(flat_statements(fns[0])).replace("; ", ";\n   ")
+    table("gen_add_row_margin", "list string", "core.add_row_margin: its statements in source order", arm, lambda m: f'["{m}"]')
+    table("gen_moment_formulas", "list (string * list string)", "util.mean_from_sum_count, nanops.nanmean / nanvar / nanstd: their statements in source order",
+          lambda: "[" + ";\n   ".join(f'("{k}", {coq_str_list(v)})' for k, v in moment_formulas(trees)) + "]", lambda m: f'[("{m}", [])]')
+    table("gen_nanops_dispatch", "list (string * string * string * string)", "nanops.reduce_1d: condition on the reducer name, skipna, initial value, reduction of the chunk results",
+          lambda: "[" + ";\n   ".join("(" + ", ".join(q(x) for x in r) + ")" for r in nanops_dispatch(trees["nanops"])) + "]", lambda m: f'[("{m}", "", "", "")]')
     out.append("Definition gen_counter_dtypes : list (string * string * string) :=\n  [" + ";\n   ".join(f'("{a}", "{b}", "{c}")' for a, b, c in sorted(counters)) + "].\n")
     out.append("(* kernel, names written through a subscript, names bound to fresh allocations, parameters *)")
     out.append("Definition gen_write_sets : list (string * list string * list string * list string) :=\n  [" + ";\n   ".join(
